@@ -259,6 +259,37 @@ func vh_C20_CurryDefSequential() {
 	}
 }
 
+// the caller keeps (and reuses) the slice it spread into a Call: what the CurryDef has accumulated is its own - a later
+// write to the caller's buffer, or a later Call, changes neither the arguments already taken nor the caller's data
+func vh_C20_CurryDefCallerOwnedSlices() {
+	var seen [][]int
+	c := CurryNewGenerics(func(c *CurryDef[int, int], args ...int) int {
+		seen = append(seen, append([]int{}, args...))
+		return len(args)
+	})
+	a, b, d, e := vfInt("a"), vfInt("b"), vfInt("d"), vfInt("e")
+	buf := make([]int, 1, 1+vfRange("spare-capacity", 0, 2))
+	buf[0] = a
+	ok := vfNoPanic("nopanic", func() {
+		c.Call(buf...)
+		buf[0] = e // the caller reuses its buffer
+		c.Call(b)
+		c.Call(d)
+	})
+	if !ok {
+		return
+	}
+	vfAssert("invoked-once-per-call", len(seen) == 3)
+	if len(seen) == 3 {
+		vfAssert("sees-all-args-so-far", vfAnd(vfSliceEq(seen[0], []int{a}), vfAnd(vfSliceEq(seen[1], []int{a, b}), vfSliceEq(seen[2], []int{a, b, d}))))
+	}
+	vfAssert("callers-buffer-untouched", vfAnd(len(buf) == 1, buf[0] == e))
+	if cap(buf) > 1 {
+		vfAssert("callers-buffer-untouched", buf[:2][1] == 0)
+	}
+	vfReach("end")
+}
+
 func vh_C20_CurryDefConcurrent() {
 	vfMemPoints(true)
 	var mu sync.Mutex
